@@ -261,6 +261,15 @@ func runC09(rng *rand.Rand, scale int, out string, shards int, seed int64, corpu
 		}
 		do(in)
 	}
+	// 5d. parameter values that mention parameters: themselves, each other in
+	// cycles of 2-3, undefined ones; from -D and from defaults; used in a later
+	// substituted clause.  Substitution is single-pass: all of these are legal.
+	for i := 0; i < 160*scale; i++ {
+		if hung {
+			break
+		}
+		do(selfRefCase(rng))
+	}
 	// 5b. cast multiplicities (bounded above), written out and through parameters
 	mults := []string{"-9223372036854775808", "-2147483649", "-4", "-1", "0", "1", "2", "7", "40", "+2", "007", "-0", "1.5", "two", "", "~undefinedn~", "0x10", "1e2", "99999999999999999999", "-"}
 	for i := 0; i < 140*scale; i++ {
